@@ -78,9 +78,6 @@ func combine(fields []st.Field) []st.Field {
 		}
 		p := strings.Split(field.Name, ".")
 		prefix = strings.Join(p[:2], ".")
-		if field.Align > new.Align {
-			new.Align = field.Align
-		}
 		if !wasPad {
 			new.End = field.Start
 			new.Size = new.End - new.Start
@@ -94,6 +91,12 @@ func combine(fields []st.Field) []st.Field {
 			new.Name = prefix
 		} else {
 			new.Type = "struct"
+			// A combined field is aligned like its most strictly aligned
+			// member. Only members raise it: the first field of the next
+			// top-level field must not leak into this one.
+			if field.Align > new.Align {
+				new.Align = field.Align
+			}
 		}
 		wasPad = false
 	}
